@@ -21,10 +21,10 @@ func txnRules() []*Rule {
 		{ID: "TXN-3", Props: []string{"C08", "C19"}, Min: 4,
 			Doc: "page cache cleared unless the change counter is unchanged; schema cache reset unless the schema cookie is unchanged; comparisons use the old header",
 			Run: runTxn3},
-		{ID: "TXN-1", Props: []string{"C08", "C15", "C01", "C04"}, Min: 12,
+		{ID: "TXN-1", Props: []string{"C08", "C15", "C01", "C04", "C09", "C07"}, Min: 12,
 			Doc: "every exported function of package db that reaches a page read calls resolveDirty (revalidation) before any page read or cache lookup",
 			Run: runTxn1},
-		{ID: "CACHE", Props: []string{"C08"}, Min: 2,
+		{ID: "CACHE", Props: []string{"C08", "C04", "C01", "C02"}, Min: 2,
 			Doc: "invalidation is complete: every mutable field a cache lookup reads is reset by the cache's clear(); the schema cache is dropped as a whole",
 			Run: runCache},
 		{ID: "TXN-5", Props: []string{"C08"}, Min: 1,
@@ -1415,6 +1415,25 @@ func runCache(c *Ctx) {
 				continue // composite literal in the constructor
 			}
 			mutable[fieldName(fa)] = true
+		}
+		// a map or slice held in a field changes without the field being assigned: element updates through a load of it
+		for _, in := range instrs(fn) {
+			var container ssa.Value
+			switch x := in.(type) {
+			case *ssa.MapUpdate:
+				container = x.Map
+			case *ssa.Store:
+				if ia, ok := x.Addr.(*ssa.IndexAddr); ok {
+					container = ia.X
+				}
+			}
+			if ld, ok := container.(*ssa.UnOp); ok && ld.Op == token.MUL {
+				if fa, ok := ld.X.(*ssa.FieldAddr); ok {
+					if n := namedOf(fa.X.Type()); n != nil && n.Obj().Name() == "btreeCache" {
+						mutable[fieldName(fa)] = true
+					}
+				}
+			}
 		}
 	}
 	for f := range reads {
